@@ -71,6 +71,7 @@ class Engine(HeapMixin, ExprMixin, StmtMixin, CallMixin, BuiltinMixin):
         self.cur_line = 0
         self.model_vars = {}
         self.options = {}
+        self.site_stats = {}      # call site -> [paths alive after the callee contract, paths killed]
 
     # ------------------------------------------------------------- frames
     @property
@@ -81,6 +82,7 @@ class Engine(HeapMixin, ExprMixin, StmtMixin, CallMixin, BuiltinMixin):
     def prove(self, name, goal, line=None, quiet=False):
         """Record and discharge obligation  pc => goal ; then assume goal."""
         p = self.p
+        self.last_reason = ''
         if isinstance(goal, bool):
             goal = z3.BoolVal(goal)
         import time
@@ -101,6 +103,7 @@ class Engine(HeapMixin, ExprMixin, StmtMixin, CallMixin, BuiltinMixin):
         ob = Obligation(name, verdict, dt, model, self.path_id, line or self.cur_line)
         if verdict == 'unknown':
             ob.detail = self.smt2(goal)
+            ob.reason = getattr(self, 'last_reason', '') or ''
         self.obligations.append(ob)
         p.assume(goal)
         return verdict
@@ -133,7 +136,13 @@ class Engine(HeapMixin, ExprMixin, StmtMixin, CallMixin, BuiltinMixin):
                     return 'proved', None
                 if r != z3.sat:
                     self.last_reason = f'solver {r} in round {rnd}: {p.solver.reason_unknown()}'
-                    return 'unknown', None
+                    cand = None
+                    try:
+                        # the candidate model the solver could not certify (quantifiers): shown, not trusted
+                        cand = self.extract_model(p.solver.model())
+                    except Exception:
+                        cand = None
+                    return 'unknown', cand
                 m = p.solver.model()
                 lem = self.refine_products(m)
                 if DEBUG:
